@@ -82,6 +82,39 @@ XBW::~XBW() {
   delete A;
 }
 
+void XBW::save(std::ostream &out) const {
+  out.write((char *)&nodesCount, sizeof(uint));
+  out.write((char *)mapping, 257 * sizeof(uint));
+
+  uint *alphaInt = new uint[nodesCount];
+  for (uint i = 0; i < nodesCount; i++)
+    alphaInt[i] = alpha->access(i);
+  out.write((char *)alphaInt, nodesCount * sizeof(uint));
+  delete[] alphaInt;
+
+  uint lastWords = nodesCount / W + 1;
+  uint *lastInt = new uint[lastWords];
+  for (uint i = 0; i < lastWords; i++)
+    lastInt[i] = 0;
+  for (uint i = 0; i < nodesCount; i++)
+    if (last->access(i))
+      bitset(lastInt, i);
+  out.write((char *)lastInt, lastWords * sizeof(uint));
+  delete[] lastInt;
+
+  uint AWords = nodesCount / W + 2;
+  uint *AInt = new uint[AWords];
+  for (uint i = 0; i < AWords; i++)
+    AInt[i] = 0;
+  for (uint i = 0; i <= nodesCount; i++)
+    if (A->access(i))
+      bitset(AInt, i);
+  // the builder also marks the position after the end (not part of A)
+  bitset(AInt, nodesCount + 1);
+  out.write((char *)AInt, AWords * sizeof(uint));
+  delete[] AInt;
+}
+
 uint XBW::size() const {
   uint s = 0;
   s += alpha->getSize();
